@@ -156,7 +156,7 @@ PROPS["C11"] = {
         {"name": "c11_crash_incremental", "fn": "c11_crash", "params": {"quick": {"reclaim": 0}}, "covers": ["crash.before-end", "crash.none"]},
         {"name": "c11_crash_reclaim", "fn": "c11_crash", "params": {"quick": {"reclaim": 1}}, "covers": ["crash.before-end", "crash.none"]},
     ],
-    "bounds": {"quick": "snapshot 1 (two keys, symbolic content) completes; one of 5 changes {update, add, remove, update+add, update with a 300-byte value}; snapshot 2 (incremental / reclaiming) is cut at a solver-chosen file-system operation (every mutating FS operation with index >= CRASH_AT is dropped, including unflushed buffers); restart with the start_db sequence; every previously persisted key must load with its old or its new (value, version), neighbours intact, no panic",
+    "bounds": {"quick": "snapshot 1 (two keys, symbolic content) completes; one of 6 changes {update, add, remove, update+add, update with a 300-byte value, add+remove}; the snapshot visits the keys in a solver-chosen rotation of the map order; a key being added must load as absent or complete; snapshot 2 (incremental / reclaiming) is cut at a solver-chosen file-system operation (every mutating FS operation with index >= CRASH_AT is dropped, including unflushed buffers); restart with the start_db sequence; every previously persisted key must load with its old or its new (value, version), neighbours intact, no panic",
                "thorough": "same"},
     "outside": "torn writes inside one write call; reordering of writes by the page cache (writes reach the disk in program order); crashes during the op-log / key-map writes (C16)",
     "assumptions": ["in-memory file system with a crash switch; BufWriter contents are lost at the crash", "environment shims"],
@@ -264,6 +264,7 @@ def _c18(name, q, t=None, covers=("snapshot.done",), thorough_only=False, budget
     return h
 PROPS["C18"] = {
     "level": "model_checking",
+    "kani": [{"name": "k_retry_rule"}],
     "harnesses": [
         _c18("c18_s3_persisted", {"strategy": 1, "prefix": 1, "ops": 2}, {"strategy": 1, "prefix": 1, "ops": 3}),
         _c18("c18_s3_fresh", {"strategy": 1, "prefix": 0, "ops": 3}, {"strategy": 1, "prefix": 0, "ops": 4}),
